@@ -10,7 +10,7 @@ run_one() {
   # a seed is also tried against the extra properties named in seeded/<s>/also (one id per line)
   props="$prop $(cat /verif/seeded/$s/also 2>/dev/null)"
   w=/tmp/seedrepo-$s; rm -rf $w; mkdir -p $w
-  rsync -a --exclude .git /repo/ $w/
+  rsync -a /tmp/seedbase/ $w/
   ( cd $w && patch -p1 -s < /verif/seeded/$s/patch.diff ) || { echo -e "$s\t$prop\tpatch-failed\t-\t-"; rm -rf $w; return; }
   for p in $props; do
     out=$(/verif/bin/vcheck -repo $w -evidence /tmp/verif-scratch-evidence-$s -p $p 2>&1)
@@ -22,6 +22,9 @@ run_one() {
   rm -rf $w /tmp/verif-scratch-evidence-$s
 }
 export -f run_one
+# one snapshot of /repo for the whole run (later edits of /repo do not mix into it)
+rm -rf /tmp/seedbase; mkdir -p /tmp/seedbase; rsync -a --exclude .git /repo/ /tmp/seedbase/
 echo $seeds | tr ' ' '\n' | xargs -P 2 -I{} bash -c 'run_one {}' > /tmp/seedall.tsv
+rm -rf /tmp/seedbase
 sort /tmp/seedall.tsv > /verif/seeded/RESULTS.tsv
 cat /verif/seeded/RESULTS.tsv | cut -f1-4
